@@ -681,13 +681,11 @@ var boundVarRe = regexp.MustCompile(`\bq[0-9]+_[A-Za-z0-9_]+|\bhp_[A-Za-z0-9_@!]
 
 func boundVarsIn(t Term) []string { return boundVarRe.FindAllString(t, -1) }
 
-var recInfos = map[*Enc]map[string]*recInfo{}
-
 func (e *Enc) recInfo(sf *SpecFunc) *recInfo {
-	m := recInfos[e]
+	m := e.recInfos
 	if m == nil {
 		m = map[string]*recInfo{}
-		recInfos[e] = m
+		e.recInfos = m
 	}
 	if ri, ok := m[sf.Pkg+"."+sf.Name]; ok {
 		return ri
